@@ -50,6 +50,10 @@ func drawYamlFile(t *rapid.T, label, ruleID, ext string, maxTests int) (C13File,
 	if chance(t, 50, label+"-name") {
 		add("other", "", 0, "  name: "+ruleID+"."+ext)
 	}
+	if chance(t, 25, label+"-ruleid") {
+		// the file was copied from another rule: the legacy titles still carry THIS file's id
+		add("other", "", 0, "rule_id: "+pick(t, []string{ruleID, "942999", "920100"}, label+"-rid"))
+	}
 	add("other", "", 0, "tests:")
 	n := drawInt(t, 0, maxTests, label+"-ntests")
 	// field layout: id only, title only, both, or mixed per test
